@@ -27,7 +27,7 @@ def plan(ctx):
                                    w4_filter=lambda i: i.startswith(("const-", "sig-", "doc-", "dead-", "fold-tuple-5", "fold-in", "dup", "nested")))
             cases += P.w9_cases(ctx, 360)
         else:
-            cases = P.corpus_cases(ctx, v, n_files=250, n_w3=500, modes=20, max_file_bytes=60000)
+            cases = P.corpus_cases(ctx, v, n_files=250, n_w3=500, modes=20, max_file_bytes=60000, w1_max_bytes=150000, max_w4_bytes=40000)
             cases += P.w9_cases(ctx, 7200)
         shards.extend(P.split(ctx, v, cases, k, "C08:", extra={"families": True}))
     return shards
